@@ -7,6 +7,7 @@ import Cbor.Gen.Loaders
 import Cbor.Gen.Streaming
 import Cbor.Gen.Unicode
 import Cbor.Gen.HeaderSize
+import Cbor.Gen.Accessors
 /-! Driver operations over the *generated* definitions (validates the translator against the compiled C). -/
 namespace Drv
 open Gen
@@ -109,8 +110,115 @@ def opF32ALL (hi : Nat) : String :=
     r2.2.foldl (fun h b => fnv h b.toUInt64) h) 1469598103934665603
   s!"{h}"
 
+/-! ### ACC: item accessors.  `ACC <fn> <type> <a> <b> <c> <refcount> <hexdata> <value>` — same protocol as harness/gen_ops.c (op_acc). -/
+
+/-- the record the harness builds: `.type`, `.refcount`, the bytes `data` points to, and the union member selected by the type tag filled from
+`a b c`; the fields of every other member hold recognisable junk (in C they overlap the selected member; the model must not read them) -/
+def accItem (ty a b c rc : Nat) (d : Array UInt8) : ItemRec :=
+  let z : ItemRec := { type := UInt32.ofNat ty, refcount := UInt64.ofNat rc, int_width := 0xDEAD0001, bs_length := 0xDEAD0002, bs_type := 0xDEAD0003,
+                       str_length := 0xDEAD0004, str_codepoints := 0xDEAD0005, str_type := 0xDEAD0006, arr_allocated := 0xDEAD0007,
+                       arr_end_ptr := 0xDEAD0008, arr_type := 0xDEAD0009, map_allocated := 0xDEAD000A, map_end_ptr := 0xDEAD000B,
+                       map_type := 0xDEAD000C, tagged_item := 0, tag_value := 0xDEAD000D, float_width := 0xDEAD000E, ctrl := 0xEE, data := d }
+  match ty with
+  | 0 | 1 => { z with int_width := UInt32.ofNat a }
+  | 2 => { z with bs_length := UInt64.ofNat a, bs_type := UInt32.ofNat b }
+  | 3 => { z with str_length := UInt64.ofNat a, str_codepoints := UInt64.ofNat b, str_type := UInt32.ofNat c }
+  | 4 => { z with arr_allocated := UInt64.ofNat a, arr_end_ptr := UInt64.ofNat b, arr_type := UInt32.ofNat c }
+  | 5 => { z with map_allocated := UInt64.ofNat a, map_end_ptr := UInt64.ofNat b, map_type := UInt32.ofNat c }
+  | 6 => { z with tag_value := UInt64.ofNat b }
+  | 7 => { z with float_width := UInt32.ofNat a, ctrl := UInt8.ofNat b }
+  | _ => z
+
+/-- the whole item after the call, as the harness prints it (member selected by the *current* type tag) -/
+def accFmtItem (r : ItemRec) : String :=
+  let (a, b, c) : Nat × Nat × Nat :=
+    match r.type.toNat with
+    | 0 | 1 => (r.int_width.toNat, 0, 0)
+    | 2 => (r.bs_length.toNat, r.bs_type.toNat, 0)
+    | 3 => (r.str_length.toNat, r.str_codepoints.toNat, r.str_type.toNat)
+    | 4 => (r.arr_allocated.toNat, r.arr_end_ptr.toNat, r.arr_type.toNat)
+    | 5 => (r.map_allocated.toNat, r.map_end_ptr.toNat, r.map_type.toNat)
+    | 6 => (0, r.tag_value.toNat, 0)
+    | 7 => (r.float_width.toNat, r.ctrl.toNat, 0)
+    | _ => (0, 0, 0)
+  s!" t={r.type} m={a},{b},{c} rc={r.refcount} d={toHex r.data}"
+
+/-- what a generated accessor returns: a value, and — exactly when the translator found a store into the item — the record afterwards.
+The instances cover every type the translator can emit for an accessor (value, record, value × record, nothing), so this driver keeps
+building when a function starts or stops storing; the change then shows in the correspondence and in `Props.Accessors`. -/
+class AccOut (α : Type) where
+  val : α → String
+  item : α → Option ItemRec
+instance : AccOut UInt8 := ⟨fun x => toString x.toNat, fun _ => none⟩
+instance : AccOut UInt16 := ⟨fun x => toString x.toNat, fun _ => none⟩
+instance : AccOut UInt32 := ⟨fun x => toString x.toNat, fun _ => none⟩
+instance : AccOut UInt64 := ⟨fun x => toString x.toNat, fun _ => none⟩
+instance : AccOut Bool := ⟨fun x => if x then "1" else "0", fun _ => none⟩
+instance : AccOut Unit := ⟨fun _ => "-", fun _ => none⟩
+instance : AccOut ItemRec := ⟨fun _ => "-", fun r => some r⟩
+instance : AccOut Untranslated := ⟨fun u => s!"untranslated({u.why})", fun _ => none⟩
+instance {α : Type} [AccOut α] : AccOut (α × ItemRec) := ⟨fun x => AccOut.val x.1, fun x => some x.2⟩
+
+def accOut {α : Type} [AccOut α] (r : ItemRec) (x : α) (ok : Bool) : Option String :=
+  some (if ok then s!"{AccOut.val x}{accFmtItem ((AccOut.item x).getD r)} ok=1" else "ok=0")
+
+def opACC (fn : String) (r : ItemRec) (v : Nat) : Option String :=
+  match fn with
+  | "cbor_typeof" => accOut r (cbor_typeof r) (cbor_typeof.ok r)
+  | "cbor_refcount" => accOut r (cbor_refcount r) (cbor_refcount.ok r)
+  | "cbor_int_get_width" => accOut r (cbor_int_get_width r) (cbor_int_get_width.ok r)
+  | "cbor_get_uint8" => accOut r (cbor_get_uint8 r) (cbor_get_uint8.ok r)
+  | "cbor_get_uint16" => accOut r (cbor_get_uint16 r) (cbor_get_uint16.ok r)
+  | "cbor_get_uint32" => accOut r (cbor_get_uint32 r) (cbor_get_uint32.ok r)
+  | "cbor_get_uint64" => accOut r (cbor_get_uint64 r) (cbor_get_uint64.ok r)
+  | "cbor_get_int" => accOut r (cbor_get_int r) (cbor_get_int.ok r)
+  | "cbor_float_get_width" => accOut r (cbor_float_get_width r) (cbor_float_get_width.ok r)
+  | "cbor_ctrl_value" => accOut r (cbor_ctrl_value r) (cbor_ctrl_value.ok r)
+  | "cbor_array_size" => accOut r (cbor_array_size r) (cbor_array_size.ok r)
+  | "cbor_array_allocated" => accOut r (cbor_array_allocated r) (cbor_array_allocated.ok r)
+  | "cbor_map_size" => accOut r (cbor_map_size r) (cbor_map_size.ok r)
+  | "cbor_map_allocated" => accOut r (cbor_map_allocated r) (cbor_map_allocated.ok r)
+  | "cbor_string_length" => accOut r (cbor_string_length r) (cbor_string_length.ok r)
+  | "cbor_string_codepoint_count" => accOut r (cbor_string_codepoint_count r) (cbor_string_codepoint_count.ok r)
+  | "cbor_bytestring_length" => accOut r (cbor_bytestring_length r) (cbor_bytestring_length.ok r)
+  | "cbor_tag_value" => accOut r (cbor_tag_value r) (cbor_tag_value.ok r)
+  | "cbor_isa_uint" => accOut r (cbor_isa_uint r) (cbor_isa_uint.ok r)
+  | "cbor_isa_negint" => accOut r (cbor_isa_negint r) (cbor_isa_negint.ok r)
+  | "cbor_isa_bytestring" => accOut r (cbor_isa_bytestring r) (cbor_isa_bytestring.ok r)
+  | "cbor_isa_string" => accOut r (cbor_isa_string r) (cbor_isa_string.ok r)
+  | "cbor_isa_array" => accOut r (cbor_isa_array r) (cbor_isa_array.ok r)
+  | "cbor_isa_map" => accOut r (cbor_isa_map r) (cbor_isa_map.ok r)
+  | "cbor_isa_tag" => accOut r (cbor_isa_tag r) (cbor_isa_tag.ok r)
+  | "cbor_isa_float_ctrl" => accOut r (cbor_isa_float_ctrl r) (cbor_isa_float_ctrl.ok r)
+  | "cbor_is_int" => accOut r (cbor_is_int r) (cbor_is_int.ok r)
+  | "cbor_is_float" => accOut r (cbor_is_float r) (cbor_is_float.ok r)
+  | "cbor_is_bool" => accOut r (cbor_is_bool r) (cbor_is_bool.ok r)
+  | "cbor_is_null" => accOut r (cbor_is_null r) (cbor_is_null.ok r)
+  | "cbor_is_undef" => accOut r (cbor_is_undef r) (cbor_is_undef.ok r)
+  | "cbor_float_ctrl_is_ctrl" => accOut r (cbor_float_ctrl_is_ctrl r) (cbor_float_ctrl_is_ctrl.ok r)
+  | "cbor_get_bool" => accOut r (cbor_get_bool r) (cbor_get_bool.ok r)
+  | "cbor_array_is_definite" => accOut r (cbor_array_is_definite r) (cbor_array_is_definite.ok r)
+  | "cbor_array_is_indefinite" => accOut r (cbor_array_is_indefinite r) (cbor_array_is_indefinite.ok r)
+  | "cbor_map_is_definite" => accOut r (cbor_map_is_definite r) (cbor_map_is_definite.ok r)
+  | "cbor_map_is_indefinite" => accOut r (cbor_map_is_indefinite r) (cbor_map_is_indefinite.ok r)
+  | "cbor_string_is_definite" => accOut r (cbor_string_is_definite r) (cbor_string_is_definite.ok r)
+  | "cbor_string_is_indefinite" => accOut r (cbor_string_is_indefinite r) (cbor_string_is_indefinite.ok r)
+  | "cbor_bytestring_is_definite" => accOut r (cbor_bytestring_is_definite r) (cbor_bytestring_is_definite.ok r)
+  | "cbor_bytestring_is_indefinite" => accOut r (cbor_bytestring_is_indefinite r) (cbor_bytestring_is_indefinite.ok r)
+  | "cbor_set_uint8" => accOut r (cbor_set_uint8 r (UInt8.ofNat v)) (cbor_set_uint8.ok r (UInt8.ofNat v))
+  | "cbor_set_uint16" => accOut r (cbor_set_uint16 r (UInt16.ofNat v)) (cbor_set_uint16.ok r (UInt16.ofNat v))
+  | "cbor_set_uint32" => accOut r (cbor_set_uint32 r (UInt32.ofNat v)) (cbor_set_uint32.ok r (UInt32.ofNat v))
+  | "cbor_set_uint64" => accOut r (cbor_set_uint64 r (UInt64.ofNat v)) (cbor_set_uint64.ok r (UInt64.ofNat v))
+  | "cbor_set_ctrl" => accOut r (cbor_set_ctrl r (UInt8.ofNat v)) (cbor_set_ctrl.ok r (UInt8.ofNat v))
+  | "cbor_set_bool" => accOut r (cbor_set_bool r (v != 0)) (cbor_set_bool.ok r (v != 0))
+  | "cbor_mark_uint" => accOut r (cbor_mark_uint r) (cbor_mark_uint.ok r)
+  | "cbor_mark_negint" => accOut r (cbor_mark_negint r) (cbor_mark_negint.ok r)
+  | _ => none
+
 def genOp (ws : List String) : Option String :=
   match ws with
+  | ["ACC", fn, ty, a, b, c, rc, h, v] => do
+      opACC fn (accItem (← ty.toNat?) (← a.toNat?) (← b.toNat?) (← c.toNat?) (← rc.toNat?) (← parseHex h)) (← v.toNat?)
   | ["SD", h] => (parseHex h).map opSD
   | ["ENC", fn, v, n] => do opENC fn (← v.toNat?) (← n.toNat?)
   | ["F32ALL", hi] => do some (opF32ALL (← hi.toNat?))
